@@ -132,6 +132,7 @@ pub fn analyze(sc: &Scenario, out: &RunOut) -> Analysis {
         if let Some((sn, sp)) = s.share_out {
             let l = port_map[sn][sp];
             port_map[i].push(l);
+            lists[l].extend(s.share_conns.iter().cloned());
         }
     }
 
